@@ -152,7 +152,7 @@ Fixpoint check_blocks (cfg : config) (st : option state) (prev : option dump) (b
 (* the hypotheses of the C05 theorems on the case itself: configuration well-formed, no transaction signed by the
    Notary contract; a case outside them is malformed (code 3) *)
 Definition hyps_ok (cfg : config) (blocks : list blockrec) : bool :=
-  cfg_wf_b cfg && forallb (fun b => forallb (fun t => negb (N.eqb (t_signer t) (a_notary cfg))) (b_txs b)) blocks.
+  cfg_wf_b cfg && forallb (fun b => forallb (fun t => negb (N.eqb (t_wit cfg t) (a_notary cfg))) (b_txs b)) blocks.
 
 Definition check_case (c : case) : N :=
   match c with
